@@ -99,15 +99,32 @@ Section Composed.
                     (GA.opp_seed0 (GA.opp_guess (MA.z0 (dkz_c s p cs)))) (GA.opp_seed1 (GA.opp_guess (MA.z0 (dkz_c s p cs))))
                     GA.opp_max_iter)).
 
+  (* since /repo d569966 (Gen/AutoCalc.v: nm_nan_cost_is_infinite, read off Cost1d::cost) an undefined cost is +infinity for the
+     solver, which carries on: the searches with the guarded costs *)
+  Definition th_cost_g (cs0 : crystal_setup R) (e : R) (s p : beam R) (x : R) : @NM.ecost R :=
+    if theta_cost_defined cs0 e s p x then MA.th_cost (theta_cost_c cs0 e s p) x else NM.CInf.
+  Definition optimum_theta_g (cs0 : crystal_setup R) (e : R) (s p : beam R) : R :=
+    NM.nm_result MA.Rltb MA.real_ops (th_cost_g cs0 e s p) sd_theta (GA.oth_seed0 GA.oth_guess) (GA.oth_seed1 GA.oth_guess) GA.oth_max_iter * 1.
+  Definition pol_cost_g (s p : beam R) (cs : crystal_setup R) (x : R) : @NM.ecost R :=
+    if period_cost_defined s p cs x then MA.pol_cost (dkz_c s p cs) (cs_length cs) x else NM.CInf.
+  Definition nm_period_g (s p : beam R) (cs : crystal_setup R) : R :=
+    NM.nm_result MA.Rltb MA.real_ops (pol_cost_g s p cs) sd_period
+      (GA.opp_seed0 (GA.opp_guess (MA.z0 (dkz_c s p cs)))) (GA.opp_seed1 (GA.opp_guess (MA.z0 (dkz_c s p cs)))) GA.opp_max_iter.
+
   Definition oracles_of_model : oracles R := {|
     o_snell_inv := snell_inv;
     (* Beam::calc_external_theta_from_internal: asin (n sin theta), n along the beam's own direction *)
     o_snell_ext := fun b cs => if snell_ext_defined b cs then Some (asin (snell_arg b cs)) else None;
+    (* the crystal-angle search: with the NaN-safe solver it always answers (undefined candidates cost +infinity); before, a
+       candidate with an undefined cost made it fail *)
     o_nm_theta := fun cs0 e s p =>
-      if theta_search_defined cs0 e s p then Some (MA.optimum_theta (theta_cost_c cs0 e s p) MA.real_ops sd_theta) else None;
+      if GA.nm_nan_cost_is_infinite then Some (optimum_theta_g cs0 e s p)
+      else if theta_search_defined cs0 e s p then Some (MA.optimum_theta (theta_cost_c cs0 e s p) MA.real_ops sd_theta) else None;
     o_dkz0 := fun s p cs => dkz_c s p cs MI.PPOff;
+    (* the period search: None = no finite period (the unpoled mismatch it starts from is undefined: NaN seeds, NaN result) *)
     o_nm_period := fun s p cs =>
-      if period_search_defined s p cs then Some (MA.nm_period (dkz_c s p cs) MA.real_ops sd_period (cs_length cs)) else None;
+      if GA.nm_nan_cost_is_infinite then (if idler_defined s p cs MI.PPOff then Some (nm_period_g s p cs) else None)
+      else if period_search_defined s p cs then Some (MA.nm_period (dkz_c s p cs) MA.real_ops sd_period (cs_length cs)) else None;
     (* the emission angle of IdlerBeam::try_new_optimum (before Beam::new normalises it) *)
     o_idler_theta := fun s p cs pp =>
       if idler_defined s p cs (ipp pp)
